@@ -4,6 +4,7 @@ import RsModel.Lemmas.ReplaceOrig
 import RsModel.Lemmas.ProvChunks
 import RsModel.Lemmas.ProvBytes
 import RsModel.Lemmas.SourcesOnce
+import RsModel.Lemmas.ProvLines
 /-!
 # C04 — mappings point to where the text really came from
 (leaf level: an OriginalSource maps every token to its own position; the composites are tied by correspondence)
@@ -229,5 +230,26 @@ theorem c04_sources_once (inner : Src) (ho : inner.OrigTree) (o : Opts) (σ : St
       simpa using hnd
   refine ⟨key inner (Src.origTree_idx inner ho) hnodes (Src.origTree_annS_nodup inner _ σ ho), fun rs => ?_⟩
   exact key (.replace inner rs) (Src.origTree_idx inner ho) (by simp [Src.cachedNodes, hnodes]) (replace_origTree_annS_nodup inner rs _ σ ho)
+
+
+/-! ## columns = false -/
+
+/-- **C04, columns = false** (every tree of OriginalSource / raw leaves under ConcatSource, any nesting): when the SourceMap
+returned for `columns = false` resolves the generated line `L` to (source `si`, original line `ol`) — first mapped segment of the
+line, the lines-only reading of a map — then, through the map's own `sources` / `sourcesContent`, `si` is a file with its exact
+content `T`; `(si, ol)` is what the *first mapped chunk on line `L`* of the source's own lines-mode stream says; and that chunk is
+the line `ln` of `T` standing at the true position (`ol`, `c`) of `T`.  Raw text is never mapped, so this chunk is the first
+original text on the line: every output line is attributed to the file and line of the first original text on it.
+Chain: C12 lines (the lines-only encoder writes the first mapped chunk per line) ∘ C03 lines (text-less = normal mode) ∘ the
+provenance invariant `ProvOK` for lines-mode streams (OriginalSource: one chunk per line of its text; kept by ConcatSource's
+renumbering) ∘ the table relation `mapAcc_tblRel`. -/
+theorem c04_lines_map (cons : Text → Option Text) (inner : Src) (ho : inner.OrigTree) (hw : Src.WD cons false inner) (final : Bool)
+    (hsmall : ∀ m ∈ chunkMs (inner.stream ⟨false, true⟩ []).1.evs, ∀ o, m.orig = some o → o.src < U31 ∧ o.line < U31)
+    (sm : SMap) (hm : (getMap inner ⟨false, final⟩ []).1 = some sm) (L si ol : Nat) (hL : 0 < L)
+    (hlook : lookupLines (decode sm.mappings) L = some (si, ol)) :
+    lookupLines (chunkMs (inner.stream ⟨false, false⟩ []).1.evs) L = some (si, ol)
+    ∧ ∃ (name T ln : Text) (c k : Nat) (m : Mapping), sm.sources[si]? = some name ∧ sm.sourcesContent[si]? = some T
+        ∧ Ev.chunk (some ln) m ∈ (inner.stream ⟨false, false⟩ []).1.evs ∧ m.gl = L ∧ TokPos T ln ol c k :=
+  origTree_lines_map cons inner ho hw final hsmall sm hm L si ol hL hlook
 
 end Rs
